@@ -51,7 +51,7 @@ SPEC = {
             "after random pre-operations; random valid-argument histories on face families and on pairs of polyhedra "
             "(cube, tetrahedron, prism, pyramid) glued by a 3-sew; composed transactions (two faces built by 1-links out of free darts, "
             "3-linked/3-sewn and edited again inside one tx block vs the same calls one by one: all-or-nothing, same final state); "
-            "malformed arguments (correspondence only).",
+            "malformed arguments (outside the guard of the property: advisory correspondence, a disagreement there is recorded, not an alarm).",
     "not_proved": [
         "no clause of the statement is left `_partial`: WF 4 (C02_step/history_preserves_WF), Mirror (open and closed faces, every "
         "op) and the refusal (closed/closed of different lengths, closed/open, open/open with different numbers of darts ahead or "
@@ -332,7 +332,7 @@ def run(tier, seed):
         parts.append(("random histories", hv.campaign(random_histories(1500, rng), oracle)))
         parts.append(("polyhedra histories", hv.campaign(polyhedra_histories(600, rng), oracle)))
         parts.append(("composed transactions (faces built and 3-sewn in one block)", hv.campaign(composed_tx(1500, rng), oracle)))
-        parts.append(("malformed", hv.campaign(malformed(1500, rng), None)))
+        parts.append(("malformed", hv.campaign(malformed(1500, rng), None, advisory=True)))
     else:
         r1 = hv.campaign(exhaustive_wf3(3, rng), oracle)
         r1["stats"]["exhaustive"] = True
@@ -347,7 +347,7 @@ def run(tier, seed):
         parts.append(("random histories", hv.campaign(random_histories(15000, rng, maxlen=50), oracle)))
         parts.append(("polyhedra histories", hv.campaign(polyhedra_histories(5000, rng, maxlen=25), oracle)))
         parts.append(("composed transactions (faces built and 3-sewn in one block)", hv.campaign(composed_tx(15000, rng), oracle)))
-        parts.append(("malformed", hv.campaign(malformed(15000, rng), None)))
+        parts.append(("malformed", hv.campaign(malformed(15000, rng), None, advisory=True)))
     return hv.merge_results(parts)
 
 
